@@ -598,7 +598,8 @@ fn record_to_proto(record: Record) -> proto::Record {
             .map(|t| {
                 let now = Instant::now();
                 if t > now {
-                    (t - now).as_secs() as u32
+                    // Less than a second left still means "expires"; 0 would mean "does not expire".
+                    u32::max((t - now).as_secs() as u32, 1)
                 } else {
                     1 // because 0 means "does not expire"
                 }
